@@ -23,6 +23,7 @@ func checkC06(c *Ctx) {
 	r.Rule("R13.5", "(shared with C13) the package's writer wrappers forward the payload unchanged, once")
 	r.Rule("R16.2", "(shared with C16) the timestamp column follows the flags in force: the layout is the logger's own, else defaultLayouts[flags & mask] read at print time, else TimeNano")
 	r.Rule("R05.9", "(shared with C05) each key once")
+	r.Rule("R01.1", "(shared with C01) the caller shown is the user's statement: every entry point captures the pc itself and emits on the spine directly (no verb implemented by calling another verb)")
 	r.Rule("R19.1", "(shared with C19) the record is the bytes the encoder appended: the write side of the formatting buffer is isomorphic to bytes.Buffer")
 	r.Rule("R05.3", "(shared with C05) the quoting routine behind every quoted attribute value lets no control byte through: appendQuotedWith appends only the quote, \\xHH of an invalid byte and the output of appendEscapedRune, which copies a rune verbatim only under a printability test")
 	r.Rule("R09.2", "(shared with C09) the layout depends on the configuration in force, not on earlier records: nothing on the print path stores to package-level state (a tag or padding computed for one width is not kept for another)")
@@ -53,9 +54,11 @@ func checkC06(c *Ctx) {
 		c06SGR(c, p, m, NewModeReach(p, m, mode, sessionEntries(p), false), "[debug]")
 		c06Layout(c, p, m, mr)
 		c06EveryLine(c, p, m, mr)
+		inDomainArmsFirst(c, p, m, "R06.2")
 		c05Keys(c, p, m, mr)
 		c11Transitions(c, p, m)
 		c17Register(c, p, m)
+		c01Gates(c, p, m, tags)
 		recordLevelWrittenOnce(c, p, m, "R06.3")
 		c16Timestamp(c, p, m)
 		dedupeEquality(c, p, m, "R05.9")
